@@ -1,4 +1,4 @@
-HOOK_COMMITS = ["c99bd4d", "2b50260", "a9b7862"]
+HOOK_COMMITS = ["c99bd4d", "2b50260", "a9b7862", "cbfbc5a", "1e95adf", "8d6ac0c"]
 NOT_APPLICABLE = {}
 _KB_NOTE = ("K = 16 is a compile-time constant of the code: exhaustive TLC runs use K = 2/3, the code is bound at K = 16 by TLC simulation "
             "walks (with scripted prefixes that fill a bucket / set up the IP-limit corner) and seeded random driver runs, each validated by TLC "
